@@ -174,6 +174,11 @@ class CoqSpec:
         """returns the result to compare (None = no comparison), or "reject" """
         k = op[0]
         if half == "whole": return self.step(op)
+        if isinstance(half, tuple):   # ("sweep", i): the pending Runtime.Close closes module i on its own (RegistrySweep.rspec_step2)
+            i = half[1]
+            if self.rtpend is not None and self.rtpend[0] == eid and i in self.open:
+                self.open.discard(i); self.exits[i] = self.rtpend[1]
+            return None
         if k == "close":
             i = op[1]
             if half == "mark":
@@ -201,6 +206,17 @@ def split_events(events, rt_relaxed):
     for j, e in enumerate(events):
         k = e["op"][0]
         if k == "close" or (k == "rtclose" and rt_relaxed): items += [("mark", j), ("finish", j)]
+        else: items.append(("whole", j))
+    return items
+
+
+def split_events2(events, insts):
+    """RegistrySweep.split_events2: a Runtime.Close is mark, one sweep step per instance, finish"""
+    items = []
+    for j, e in enumerate(events):
+        k = e["op"][0]
+        if k == "close": items += [("mark", j), ("finish", j)]
+        elif k == "rtclose": items += [("mark", j)] + [(("sweep", i), j) for i in insts] + [("finish", j)]
         else: items.append(("whole", j))
     return items
 
@@ -235,7 +251,7 @@ def oracle_counters(events, counters):
     """closing releases an instance's resources and fires its notification exactly once"""
     ok_inst = {e["op"][3] for e in events if e["op"][0] == "inst" and e["ret"] == ["ok"]}
     probs = []
-    for i, nn, nf, nopen, closed in counters:
+    for i, nn, nf, nopen, closed in (x[:5] for x in counters):
         if nn > 1: probs.append(("notified-twice", "instance %d notified %d times" % (i, nn)))
         if nf != 99 and nf > max(nopen, 1): probs.append(("fs-closed-twice", "instance %d: fs closed %d times" % (i, nf)))
         if nf != 99 and nf > 1: probs.append(("fs-closed-twice", "instance %d: fs closed %d times" % (i, nf)))
@@ -248,20 +264,122 @@ def oracle_counters(events, counters):
     return probs
 
 
+def oracle_listed(events, counters):
+    """at rest, the store's module list holds exactly the open modules it handed out: closing (by the module's own Close or by
+    Runtime.Close) unlinks the instance — anonymous ones too, which no name index would otherwise reveal"""
+    ok_inst = {e["op"][3]: e["op"] for e in events if e["op"][0] == "inst" and e["ret"] == ["ok"]}
+    probs = []
+    for x in counters:
+        if len(x) < 6 or x[5] < 0: continue
+        i, closed, listed = x[0], x[4], x[5]
+        want = 1 if (i in ok_inst and closed == 0) else 0
+        if listed != want:
+            op = ok_inst.get(i)
+            who = dict(anonymous=bool(op and op[2] == 0), host=bool(op and op[1] == 1))
+            kind = "closed-instance-still-listed" if listed == 1 else "open-instance-not-listed"
+            probs.append((kind, who, "instance %d: %s, closed word %s, but %s in Store.moduleList at the end" % (
+                i, "handed out" if i in ok_inst else "never handed out", "set" if closed == 1 else "clear", "linked" if listed == 1 else "not linked")))
+    return probs
+
+
+def oracle_rtclose(events, counters):
+    """the property, directly: once Runtime.Close has returned every module ever handed out is closed, and every compile /
+    instantiate request that comes back after that failed or handed out a closed module.
+    A Close that loses the flag CAS returns before the winner's sweep (F33), so "Close has returned" is taken as: every
+    Runtime.Close that was invoked before the first one returned has returned (the winner is one of them)."""
+    rts = [e for e in events if e["op"][0] == "rtclose" and e["ret"] == ["ok"]]
+    if not rts: return []
+    first = min(e["res"] for e in rts)
+    T = max(e["res"] for e in rts if e["inv"] < first)
+    end_closed = {x[0]: x[4] for x in counters}
+    probs = []
+    for e in events:
+        k = e["op"][0]
+        if k == "inst":
+            host, n, i = e["op"][1] == 1, e["op"][2], e["op"][3]
+            who = dict(anonymous=(n == 0), host=host)
+            if e["ret"] == ["ok"]:
+                obs = e.get("obs")
+                if obs and obs[0] > T and obs[1] == 1:
+                    probs.append(("open-module-after-runtime-close", who,
+                                  "instantiate of instance %d returned an OPEN module (IsClosed() false at tick %d) after Runtime.Close had returned (tick %d)" % (i, obs[0], T)))
+                elif end_closed.get(i) == 0:
+                    probs.append(("open-module-after-runtime-close", who,
+                                  "instance %d was handed out by InstantiateModule and is still open at the end of the history, after Runtime.Close returned (tick %d)" % (i, T)))
+            if e["inv"] > first and e["ret"][0] in ("ok", "dup"):
+                probs.append(("request-after-runtime-close-not-refused", who,
+                              "instantiate invoked at tick %d, after a Runtime.Close returned (tick %d), returned %s" % (e["inv"], first, e["ret"])))
+        elif k == "compile" and e["inv"] > first and e["ret"] == ["ok"]:
+            probs.append(("request-after-runtime-close-not-refused", dict(anonymous=False, host=e["op"][1] == 1),
+                          "compile invoked at tick %d, after a Runtime.Close returned (tick %d), succeeded" % (e["inv"], first)))
+    return probs
+
+
+def walk_schedule(c):
+    """follow a forced schedule through its yield points. Returns (blocks, windows): the same schedule for the step model
+    (thread, number of steps; 0 = finish the operation) or None when a point is not mapped, and for every Runtime.Close the
+    position of every other thread's instantiate at that moment [(window, anonymous, host)]."""
+    prog = c["prog"]
+    if c.get("blocks"):   # user code inside InstantiateModule closed the runtime: the harness names the window itself
+        return [tuple(b) for b in c["blocks"]], [(c["window"], prog[0][0][2] == 0, prog[0][0][1] == 1)]
+    pos = [("idle", 0) for _ in prog]
+    blocks, windows, ok = [], [], not c.get("has_skip") and not c.get("deadlock")
+    for k, p in zip(c["sched"], c["points"]):
+        at, oi = pos[k]
+        if oi >= len(prog[k]): return None, windows
+        op = prog[k][oi]
+        if op[0] == "rtclose" and at == "idle":
+            for j, (atj, oj) in enumerate(pos):
+                if j == k or oj >= len(prog[j]) or prog[j][oj][0] != "inst": continue
+                win = {"idle": None, "instantiate:before-register": "built", "attach": "registered"}.get(atj)
+                if win: windows.append((win, prog[j][oj][2] == 0, prog[j][oj][1] == 1))
+        if p in ("done", "op"):
+            blocks.append((k, 0)); pos[k] = ("idle", oi + 1)
+        elif p == "instantiate:before-register" and at == "idle" and op[0] == "inst":
+            blocks.append((k, 5 if op[1] == 1 else 3)); pos[k] = (p, oi)   # invocation, [failIfClosed, type ids,] failIfClosed, build
+        elif p == "attach" and at == "instantiate:before-register":
+            blocks.append((k, 1)); pos[k] = (p, oi)                        # registerModule succeeded
+        elif p == "close:after-cas" and at == "idle" and op[0] == "close":
+            blocks.append((k, 2)); pos[k] = (p, oi)                        # invocation, CAS won
+        elif p == "close:after-cas" and at == "instantiate:before-register":
+            blocks.append((k, 2)); pos[k] = (p, oi)                        # registerModule refused, CAS of the new instance
+        elif p == "compile:listeners" and at == "idle" and op[0] == "compile" and op[1] == 1:
+            blocks.append((k, 2)); pos[k] = (p, oi)                        # invocation, failIfClosed
+        else:
+            ok = False; pos[k] = (p, oi)
+    return (blocks if ok else None), windows
+
+
 # ------------------------------------------------------------------------------------------ the check
-HDR = "From Coq Require Import List ZArith.\nFrom Verif Require Import Rt.Registry.\nImport ListNotations.\n"
+def par_eval(jobs, workers=4):
+    """coq_eval for several generated files at once: jobs = [(name, text, timeout)] -> [(rc, output)] in order"""
+    from concurrent.futures import ThreadPoolExecutor
+    if len(jobs) <= 1: return [coq_eval(*j) for j in jobs]
+    with ThreadPoolExecutor(max_workers=workers) as ex:
+        return list(ex.map(lambda j: coq_eval(*j), jobs))
+
+
+HDR = "From Coq Require Import List ZArith.\nFrom Verif Require Import Rt.Registry Rt.RegistryAnon.\nImport ListNotations.\n"
 
 
 def run(tier, seed):
     ck = Check("C10", tier, seed)
     ck.trusted += ["hand transcription of store.go/store_module_list.go/module_instance.go/runtime.go/builder.go into atomic steps (coq/Rt/Registry.v), tied by the correspondence runs",
                    "sequential-consistency abstraction of sync.RWMutex / atomic.Uint64 (guarded by a -race run of the concurrent histories when cgo is available)",
-                   "harness/c10 (Go: logical clocks, yield-point scheduler through wasm.VerifYieldHook and a yielding context) and checks/c10.py (conversion, oracle)"]
-    ck.assumptions += ["modules without imports and without start functions; interpreter engine in the harness",
+                   "harness/c10 (Go: logical clocks, yield-point scheduler through wasm.VerifYieldHook and a yielding context; read-only overlay exports VerifUnwrap / VerifStore / Store.VerifListed) and checks/c10.py (conversion, oracles, mapping of yield points to model steps for the schedule replay)"]
+    ck.assumptions += ["modules without imports and without start functions, except the user-code window family (start-section function / _start export calling a host function that closes the runtime); interpreter engine in the harness",
+                       "host modules are always named (wasm.NewHostModule rejects the empty name): anonymous = binary modules (WithName(\"\"), no name at all, name section overridden by WithName(\"\"))",
+                       "a _start export that finds its module closed with a NON-zero exit code makes InstantiateModule return that exit error together with the closed module: outside the registry's result alphabet, exercised only with Runtime.Close (exit code 0)",
                        "linearizability theorem is bounded (C10_linearizable_partial_bounded_3ops: 302 programs, <=3 operations, one name) and restricted to close-atomic, panic-free schedules: F10 and the nil-type-id-map panic are open findings",
-                       "open findings replayed on the real code on every run: F10 close window, notifier attached after registration, compile panicking during Runtime.Close; the runtime-close window is only observed in random runs",
+                       "open findings replayed on the real code on every run: F10 close window, notifier attached after registration, compile panicking during Runtime.Close, and the runtime-close window F33 (observed from a close notification that runs inside the sweep: flag set / newer module closed while an older module is still open)",
+                       "the sweep of Runtime.Close is ONE step of the step model; lock-free IsClosed reads of two modules can see it module by module (same finding F33, finer symptom): such histories are classified by Rt/RegistrySweep.v (relaxed specification with per-module sweep steps), not by the step model",
                        "Store.CloseWithExitCode's loop is one atomic step of the model (runs under the store lock; foreign CAS commutes)"]
+    phases, tmark = {}, [time.time()]
+
+    def phase(name):
+        now = time.time(); phases[name] = round(phases.get(name, 0) + now - tmark[0], 1); tmark[0] = now
     proofs_ok = ck.proofs()
+    phase("proofs")
     quick = tier == "quick"
     nseq, nconc, nprog, limit = (300, 300, 14, 250) if quick else (6000, 6000, 120, 3000)
     if not proofs_ok:
@@ -281,6 +399,7 @@ def run(tier, seed):
                 ck.violation("data-race", ENGCLOSE_SIG, {"mode": mode, "fatal": out[out.find("fatal error"):][:2500]})
             else:
                 ck.violation("harness-crash", {"kind": "crash", "mode": mode}, {"rc": rc, "tail": out[-3000:]}, no_input=False)
+    phase("harness")
     if not cases:
         return ck.finish()
     # the concurrent histories once more under the race detector (needs cgo)
@@ -309,6 +428,7 @@ def run(tier, seed):
     else:
         race_note = "race build unavailable: " + rlog[-200:].replace("\n", " ")
     ck.note("race detector: " + race_note)
+    phase("race")
 
     for c in cases:
         c["counters"] = c.get("counters") or []
@@ -337,20 +457,27 @@ def run(tier, seed):
         shard = seq_in[s:s + SH]
         body = ";\n".join("(%s, %s, %s)" % (coq_list(coq_op(o) for o in c["ops"]), coq_list(coq_ret(r) for r in c["rets"]),
                                             coq_list("(%d, %d, %d)" % (x[0], x[1], x[2]) for x in c["counters"])) for c in shard)
-        v = HDR + "Definition cases : list seq_case := [\n" + body + "].\nDefinition M := Eval vm_compute in mismatches 0 cases.\nPrint M.\n"
+        lbody = ";\n".join("(%s, %s)" % (coq_list(coq_op(o) for o in c["ops"]),
+                                          coq_list("(%d, %s)" % (x[0], coq_bool(x[5] == 1)) for x in c["counters"] if len(x) > 5 and x[5] >= 0)) for c in shard)
+        v = HDR + "Definition cases : list seq_case := [\n" + body + "].\nDefinition M := Eval vm_compute in mismatches 0 cases.\nPrint M.\n" + \
+            "Definition lcases : list (list op * list (nat * bool)) := [\n" + lbody + "].\nDefinition LM := Eval vm_compute in seq_list_mismatches 0 lcases.\nPrint LM.\n"
         rc, o = coq_eval("c10_seq_%d" % s, v)
-        lst = parse_zlist(o, "M")
-        if rc != 0 or lst is None:
+        lst, llst = parse_zlist(o, "M"), parse_zlist(o, "LM")
+        if rc != 0 or lst is None or llst is None:
             ck.violation("model-eval", {"kind": "model-eval"}, {"rc": rc, "out": o[-2000:]}, no_input=True)
             return ck.finish()
         for i in range(0, len(lst), 2): mism[s + lst[i]] = lst[i + 1]
+        for i in llst: mism.setdefault(s + i, -3)   # -3: the list membership at the end differs from the model's
     for idx, c in enumerate(seq_in):
         why = oracle_seq(c["ops"], c["rets"])
-        evs = [{"op": o, "ret": r} for o, r in zip(c["ops"], c["rets"])]
+        evs = [{"op": o, "ret": r, "inv": 2 * j + 1, "res": 2 * j + 2} for j, (o, r) in enumerate(zip(c["ops"], c["rets"]))]
         cprob = oracle_counters(evs, c["counters"])
+        rprob = oracle_rtclose(evs, c["counters"]) or oracle_listed(evs, c["counters"])
         d = mism.get(idx)
-        if why is None and not cprob and d is None: continue
-        if why is not None:
+        if why is None and not cprob and not rprob and d is None: continue
+        if rprob:
+            fresh(rprob[0][0], dict(kind=rprob[0][0], mode="seq", **rprob[0][1]), {"case": c, "oracle": rprob[0][2], "model_first_diff": d})
+        elif why is not None:
             j = int(re.match(r"op (\d+)", why).group(1))
             fresh("seq-property-fails", {"kind": "seq-property-fails", "op": c["ops"][j][0], "got": c["rets"][j][0]},
                   {"case": c, "oracle": why, "model_first_diff": d})
@@ -359,11 +486,14 @@ def run(tier, seed):
         else:
             fresh("seq-model-differs", {"kind": "seq-model-differs"}, {"case": c, "model_first_diff": d}, no_input=True)
 
+    phase("seq")
     # ---------------- timed histories (concurrent and forced): classification by the model inside Coq, oracle in Python
     hists = []
     n_panic_hist = 0
     for c in forced:
+        c["sched"], c["points"] = c.get("sched") or [], c.get("points") or []
         # a close of a handle the thread never obtained does nothing on the real runtime: not part of the history
+        c["has_skip"] = any(e["ret"] == ["skip"] for e in c["events"])
         c["events"] = [e for e in c["events"] if e["ret"] != ["skip"]]
         c["rets"] = [[r for r in t if r != ["skip"]] for t in (c.get("rets") or [])]
     for c in concs + forced:
@@ -377,16 +507,79 @@ def run(tier, seed):
         pan = [e for e in c["events"] if e["ret"][0] == "panic"]
         if pan:
             # the specification never panics: such a history is not linearizable by definition; classify the panic itself
-            if all("nil map" in e["ret"][1] for e in pan) and any(e["op"][0] == "rtclose" for e in c["events"]):
+            typeid_path = all(e["op"][0] == "compile" or (e["op"][0] == "inst" and e["op"][1] == 1) for e in pan)
+            if typeid_path and all("nil map" in e["ret"][1] for e in pan) and any(e["op"][0] == "rtclose" for e in c["events"]):
                 ck.violation("panic-during-runtime-close", PANIC_SIG, {"case": c, "panicking": pan[0]})
             else:
                 fresh("panic", {"kind": "panic", "op": pan[0]["op"][0]}, {"case": c, "panicking": pan[0]})
             n_panic_hist += 1
             continue
         hists.append(c)
+    # ---------------- every forced schedule once more on the step model (Coq), decision by decision: same results per thread,
+    # same closed words and counters at the end (Rt/RegistryAnon.v check_sched_v / sched_mismatches)
+    sched_in, sched_diff, n_unmapped = [], {}, 0
+    win_dist = {}
+    for c in forced:
+        blocks, wins = walk_schedule(c)
+        mech = "user-code" if c.get("blocks") else "hook"
+        for win, anon, host in wins:
+            key = "%s:%s/%s%s" % (mech, win, "anonymous" if anon else "named", "-host" if host else "")
+            win_dist[key] = win_dist.get(key, 0) + 1
+        if blocks is None or not c.get("rets") or not all(representable(t) for t in c["rets"]) or c["label"].startswith("double-close"):
+            n_unmapped += 1
+            continue
+        sched_in.append((c, blocks))
+    jobs, shards = [], []
+    for s0 in range(0, len(sched_in), SH):
+        shard = sched_in[s0:s0 + SH]
+        body = ";\n".join("(%s, %s, %s, %s, %s, %s)" % (
+            coq_bool(c["atomic"]), coq_list(coq_op(o) for o in (c["pre"] or [])),
+            coq_list(coq_list(coq_op(o) for o in t) for t in c["prog"]),
+            coq_list("(%d, %d)" % b for b in blocks),
+            coq_list(coq_list(coq_ret(r) for r in t) for t in c["rets"]),
+            coq_list("(%d, %d, %d, %d, %d)" % (x[0], 1 if x[4] == 1 else 0, x[1], x[2], x[5] if len(x) > 5 and x[5] >= 0 else 9)
+                     for x in c["counters"])) for c, blocks in shard)
+        v = HDR + "Definition cases : list sched_case := [\n" + body + "].\nDefinition S := Eval vm_compute in sched_mismatches 0 cases.\nPrint S.\n"
+        jobs.append(("c10_sched_%d" % s0, v, 600)); shards.append(shard)
+    for shard, (rc, o) in zip(shards, par_eval(jobs)):
+        lst = parse_zlist(o, "S")
+        if rc != 0 or lst is None:
+            ck.violation("model-eval", {"kind": "model-eval"}, {"rc": rc, "out": o[-2000:]}, no_input=True)
+            return ck.finish()
+        for i in range(0, len(lst), 2): sched_diff[id(shard[lst[i]][0])] = (lst[i + 1], shard[lst[i]][1])
+    SCHED_CODE = {1: "the model cannot follow the schedule", 2: "the schedule does not complete the program in the model",
+                  3: "results differ", 4: "final closed words / close counters differ"}
+    # ---------------- the property itself on every timed history: modules handed out vs Runtime.Close
+    direct_bad, direct_seen = set(), {}
+    # shortest forced schedules first: the report carries the simplest concrete schedule
+    for c in sorted(forced, key=lambda c: (len(c["sched"]), len(c["events"]))) + concs:
+        if c.get("deadlock"): continue
+        probs = oracle_rtclose(c["events"], c["counters"]) or oracle_listed(c["events"], c["counters"])
+        if not probs: continue
+        direct_bad.add(id(c))
+        kind, who, why = probs[0]
+        dkey = (kind, c["kind"], who["anonymous"], who["host"], "user-code" if c.get("blocks") else "hook" if c["kind"] == "forced" else "timing")
+        direct_seen[dkey] = direct_seen.get(dkey, 0) + 1
+        if direct_seen[dkey] > 2: continue
+        detail = {"case": c, "oracle": why}
+        if c["kind"] == "forced":
+            detail["schedule"] = dict(label=c["label"], setup=c["pre"], program=c["prog"], decisions=c["sched"], stopped_at=c["points"],
+                                      close_atomic=c["atomic"], results=c["rets"])
+            if id(c) in sched_diff:
+                detail["model_under_the_same_schedule"] = dict(blocks=sched_diff[id(c)][1], verdict=SCHED_CODE.get(sched_diff[id(c)][0]))
+        ck.violation(kind, dict(kind=kind, mode=c["kind"], **who), detail)
+    if direct_seen:
+        ck.extra["property_oracle_failures"] = {"/".join(map(str, k)): v for k, v in direct_seen.items()}
+    for c, blocks in sched_in:
+        if id(c) in sched_diff and id(c) not in direct_bad:
+            code = sched_diff[id(c)][0]
+            fresh("forced-schedule-model-differs", {"kind": "forced-schedule-model-differs", "code": code},
+                  {"case": c, "blocks": blocks, "verdict": SCHED_CODE.get(code)}, no_input=True)
+    ck.extra["forced_schedules_replayed_on_model"] = len(sched_in)
+    phase("schedule-replay")
     # hints from an untrusted search; verdicts from Coq: lin_check on the reordered history (class 0), the relaxed checks with the
     # supplied order (class 1: module-close window = F10 class; class 2: runtime-close window), class 3 otherwise
-    klass, lin_batch, nonlin = {}, [], []
+    klass, lin_batch, nonlin, sweep_level = {}, [], [], {}
     for idx, c in enumerate(hists):
         ev = c["events"]
         order = search(ev, [("whole", j) for j in range(len(ev))])
@@ -399,12 +592,22 @@ def run(tier, seed):
             if perm is not None:
                 nonlin.append((idx, cls, rt, perm)); break
         else:
-            nonlin.append((idx, 3, True, None))
+            # the sweep of a Runtime.Close seen module by module (lock-free IsClosed of two modules): still the runtime-close window
+            insts = sorted({e["op"][3] for e in ev if e["op"][0] == "inst" and e["ret"] == ["ok"]})
+            perm = search(ev, split_events2(ev, insts)) if any(e["op"][0] == "rtclose" for e in ev) and len(insts) <= 12 else None
+            if perm is not None:
+                sweep_level[idx] = insts
+                nonlin.append((idx, 2, "sweep", perm))
+            else:
+                nonlin.append((idx, 3, True, None))
+    phase("hint-search")
+    jobs, shards = [], []
     for s0 in range(0, len(lin_batch), SH):
         shard = lin_batch[s0:s0 + SH]
         v = HDR + "Definition hs : list (list ev) := [\n" + ";\n".join(coq_list(coq_event(e) for e in evs) for _, evs in shard) + \
             "].\nDefinition K := Eval vm_compute in lin_all 0 hs.\nPrint K.\n"
-        rc, o = coq_eval("c10_lin_%d" % s0, v, timeout=300)
+        jobs.append(("c10_lin_%d" % s0, v, 300)); shards.append(shard)
+    for shard, (rc, o) in zip(shards, par_eval(jobs)):
         lst = parse_zlist(o, "K")
         if rc != 0 or lst is None:
             ck.violation("model-eval", {"kind": "model-eval"}, {"rc": rc, "out": o[-2000:]}, no_input=True)
@@ -413,7 +616,21 @@ def run(tier, seed):
             fresh("model-rejects-hint", {"kind": "model-rejects-hint"}, {"case": hists[shard[i][0]]}, no_input=True)
     confirmed_nonlin = 0
     for idx, cls, rt, perm in nonlin: klass[idx] = cls
-    rel = [x for x in nonlin if x[3] is not None]
+    rel2 = [x for x in nonlin if x[3] is not None and x[2] == "sweep"]
+    for s0 in range(0, len(rel2), SH):
+        shard = rel2[s0:s0 + SH]
+        v = HDR.replace("Rt.RegistryAnon", "Rt.RegistryAnon Rt.RegistrySweep") + "Definition R2 := Eval vm_compute in relaxed2_all [\n" + ";\n".join(
+            "(%s, %s, %s)" % (coq_list(coq_event(e) for e in hists[idx]["events"]), coq_list(str(i) for i in sweep_level[idx]), coq_list(str(i) for i in perm))
+            for idx, cls, rt, perm in shard) + "].\nPrint R2.\n"
+        rc, o = coq_eval("c10_relaxed2_%d" % s0, v, timeout=300)
+        lst = parse_zlist(o, "R2")
+        if rc != 0 or lst is None or len(lst) != len(shard):
+            ck.violation("model-eval", {"kind": "model-eval"}, {"rc": rc, "out": o[-2000:]}, no_input=True)
+            return ck.finish()
+        for (idx, cls, rt, perm), okv in zip(shard, lst):
+            if okv != 1:
+                fresh("model-rejects-hint", {"kind": "model-rejects-hint", "relaxed": "sweep"}, {"case": hists[idx]}, no_input=True)
+    rel = [x for x in nonlin if x[3] is not None and x[2] != "sweep"]
     for s0 in range(0, len(rel), SH):
         shard = rel[s0:s0 + SH]
         v = HDR + "Definition R := Eval vm_compute in relaxed_all [\n" + ";\n".join(
@@ -440,6 +657,7 @@ def run(tier, seed):
                 bad = [small[i] for i in range(len(small)) if i not in lst][0]
                 fresh("model-oracle-disagree", {"kind": "model-oracle-disagree"}, {"case": hists[bad[0]], "note": "lin_check accepts a history the hint search rejects"}, no_input=True)
     ck.extra["nonlinearizable_confirmed_by_lin_check"] = confirmed_nonlin
+    phase("lin-coq")
     dist = {"seq_ops": {}, "seq_rets": {}, "hist_class": {0: 0, 1: 0, 2: 0, 3: 0}, "hist_len": {}, "forced_labels": {}, "conc_overlap": 0}
     f10_witness_seen = None
     for idx, c in enumerate(hists):
@@ -459,6 +677,11 @@ def run(tier, seed):
             else:
                 ck.violation("close-window", F10_SIG, {"case": c, "model_class": k,
                              "explained_by": "relaxed spec: a Close that lost the CAS may return before the winner's delete"})
+        elif k == 2 and idx in sweep_level:
+            dist["hist_class"]["2_module_by_module"] = dist["hist_class"].get("2_module_by_module", 0) + 1
+            ck.violation("rt-close-window", dict(RTWIN_SIG, granularity="module-by-module"), {"case": c, "model_class": k,
+                         "explained_by": "relaxed spec, finer (Rt/RegistrySweep.v): the flag is visible before the sweep AND the sweep closes the listed "
+                                         "modules one after the other, which lock-free IsClosed reads of two modules can observe"})
         elif k == 2:
             ck.violation("rt-close-window", RTWIN_SIG, {"case": c, "model_class": k,
                          "explained_by": "relaxed spec: the runtime's closed flag is visible before the store is swept"})
@@ -477,10 +700,12 @@ def run(tier, seed):
     seen, uniq = set(), []
     for v in ck.violations:
         key = json.dumps(v["sig"], sort_keys=True)
-        if v["sig"] in (F10_SIG, RTWIN_SIG, LOST_SIG, ENGCLOSE_SIG, PANIC_SIG) and key in seen: continue
+        if v["sig"].get("kind") == "rt-close-window": key = json.dumps(RTWIN_SIG, sort_keys=True)   # one line for F33, whatever the granularity
+        if (v["sig"] in (F10_SIG, RTWIN_SIG, LOST_SIG, ENGCLOSE_SIG, PANIC_SIG) or v["sig"].get("kind") == "rt-close-window") and key in seen: continue
         seen.add(key); uniq.append(v)
     ck.violations = uniq
 
+    phase("oracle-lin")
     # ---------------- forced schedules: observed result vectors must be producible by the step model (small programs)
     groups = {}
     for c in forced:
@@ -509,6 +734,9 @@ def run(tier, seed):
                 c = groups[key][olist[i]]
                 fresh("forced-outcome-not-in-model", {"kind": "forced-outcome-not-in-model", "atomic": c["atomic"]}, {"case": c}, no_input=True)
     ck.extra["forced_programs_compared_with_model"] = len(defs)
+    phase("outcome-sets")
+    ck.extra["phase_seconds"] = phases
+    ck.note("phases (s): " + json.dumps(phases))
 
     # ---------------- bookkeeping
     for c in seq_in:
@@ -518,6 +746,25 @@ def run(tier, seed):
     for c in concs:
         ev = c["events"]
         if any(a["inv"] < b["inv"] < a["res"] for a in ev for b in ev if a is not b): dist["conc_overlap"] += 1
+    flav = {0: "anonymous(WithName-empty)", 1: "anonymous(no-name,no-name-section)", 2: "anonymous(name-section-overridden-by-empty)"}
+    anon_dist = {}
+    for mode, group in (("seq", seq_in), ("conc", concs), ("forced", forced)):
+        dd = anon_dist.setdefault(mode, {})
+        for c in group:
+            evs = c["events"] if "events" in c else [{"op": o, "ret": r} for o, r in zip(c["ops"], c["rets"])]
+            anon_ids = {e["op"][3] for e in evs if e["op"][0] == "inst" and e["op"][2] == 0 and e["ret"] == ["ok"]}
+            for e in evs:
+                o, r = e["op"], e["ret"]
+                if o[0] == "inst":
+                    key = "inst-host" if o[1] == 1 else ("inst-" + flav[o[3] % 3] if o[2] == 0 else "inst-named")
+                    key += "/" + r[0]
+                elif o[0] in ("close", "isclosed") and o[1] in anon_ids: key = o[0] + "-of-anonymous"
+                elif o[0] == "rtclose" and anon_ids: key = "rtclose-in-history-with-anonymous-handed-out"
+                else: continue
+                dd[key] = dd.get(key, 0) + 1
+    dist["anonymous"] = anon_dist
+    dist["rtclose_windows"] = win_dist
+    dist["forced_schedule_vs_model"] = {"replayed": len(sched_in), "not_mapped": n_unmapped, "differ": len(sched_diff)}
     dist["histories_with_panic"] = n_panic_hist
     dist["counts"] = {"seq": len(seqs), "conc": len(concs), "conc_race": len(race_cases), "forced": len(forced)}
     ck.dist = dist
@@ -529,7 +776,11 @@ def run(tier, seed):
     if forced: ck.samples.append(dict(kind="forced", label=forced[0]["label"], sched=forced[0]["sched"], points=forced[0]["points"], rets=forced[0]["rets"]))
     ck.extra["rule"] = ("sequential random histories (model run_ops + spec oracle + counters); timed concurrent histories from 8 goroutines over 3 names "
                         "(model lin_check/classify inside Coq + independent memoised oracle), also under -race; schedules forced through the yield hook "
-                        "(witness replays, exhaustive/sampled schedules of small programs, result vectors compared with the model's outcome set); "
+                        "(witness replays, exhaustive/sampled schedules of small programs, result vectors compared with the model's outcome set; "
+                        "every mapped schedule replayed decision by decision on the step model: same results, closed words and counters); window families: "
+                        "an instantiate (anonymous in three flavours / named / host) sits after Store.instantiate or after registerModule while Runtime.Close "
+                        "runs to completion, forced through the yield hook and by user code inside InstantiateModule; every timed history ends with IsClosed "
+                        "probes; the property's own oracle: nothing handed out is open once Runtime.Close has returned; "
                         "non-trivial = more than two operations/events; distinct by full content")
     ck.extra["race"] = race_note
     if not proofs_ok and not any(not v.get("no_input") for v in ck.violations):
